@@ -172,11 +172,12 @@ func (e *specEnv) goal(x Expr) (g string, extra []string, err error) {
 	}()
 	var sk []string
 	g = e.goalSkolem(x, &sk)
-	if len(sk) == 0 {
+	if len(sk) == 0 && len(e.u.extraCands) == 0 {
 		return g, nil, nil
 	}
 	at := append([]string{}, sk...)
 	at = append(at, e.u.mode.idxLit(0))
+	at = append(at, e.u.extraCands...)
 	base := append([]string{}, at...)
 	for _, gs := range e.u.ghostSyms {
 		// ghost index maps are candidates only at program points after the call that introduced them
